@@ -121,14 +121,18 @@ class Call:
         self.delay = delay
         self.noreply = noreply
 
+    def _nr(self):
+        """noreply as the caller passes it: left out altogether ("OMIT"), or the given value (None included)."""
+        return {} if self.noreply == "OMIT" else {"noreply": self.noreply}
+
     def invoke(self, obj):
         o, k = self.op, self.keys
         if o in STORE:
-            return getattr(obj, o)(k[0], self.value, expire=self.expire, noreply=self.noreply, flags=self.flags)
+            return getattr(obj, o)(k[0], self.value, expire=self.expire, **self._nr(), flags=self.flags)
         if o == "cas":
-            return obj.cas(k[0], self.value, self.cas, expire=self.expire, noreply=self.noreply, flags=self.flags)
+            return obj.cas(k[0], self.value, self.cas, expire=self.expire, **self._nr(), flags=self.flags)
         if o == "set_many":
-            return obj.set_many({x: self.value for x in k}, expire=self.expire, noreply=self.noreply, flags=self.flags)
+            return obj.set_many({x: self.value for x in k}, expire=self.expire, **self._nr(), flags=self.flags)
         if o in ("get", "gets"):
             return getattr(obj, o)(k[0])
         if o in ("gat", "gats"):
@@ -136,15 +140,15 @@ class Call:
         if o in ("get_many", "gets_many"):
             return getattr(obj, o)(list(k))
         if o == "delete":
-            return obj.delete(k[0], noreply=self.noreply)
+            return obj.delete(k[0], **self._nr())
         if o == "delete_many":
-            return obj.delete_many(list(k), noreply=self.noreply)
+            return obj.delete_many(list(k), **self._nr())
         if o in ("incr", "decr"):
-            return getattr(obj, o)(k[0], self.delta, noreply=self.noreply)
+            return getattr(obj, o)(k[0], self.delta, **self._nr())
         if o == "touch":
-            return obj.touch(k[0], expire=self.expire, noreply=self.noreply)
+            return obj.touch(k[0], expire=self.expire, **self._nr())
         if o == "flush_all":
-            return obj.flush_all(delay=self.delay, noreply=self.noreply)
+            return obj.flush_all(delay=self.delay, **self._nr())
         raise KeyError(o)
 
     def int_params(self):
@@ -201,7 +205,11 @@ class Call:
         nframes = len(wires) if o in ("set_many", "delete_many") else 1
         if weak:
             return ("weak", nframes)
-        nr = bool(self.noreply)
+        if self.noreply in ("OMIT", None):
+            # the documented defaults: cas / incr / decr wait for the reply, the others follow default_noreply (True here)
+            nr = o not in ("cas", "incr", "decr")
+        else:
+            nr = bool(self.noreply)
         flags = serde_flags if self.flags is None else self.flags
         cmds = []
         if o in STORE or o == "set_many":
@@ -236,7 +244,7 @@ class Call:
         d = {"op": self.op, "keys": [k if isinstance(k, str) else {"hex": k.hex()} for k in self.keys],
              "value": self.value if isinstance(self.value, (str, int)) else (
                  {"hex": bytes(self.value).hex()} if isinstance(self.value, bytes) else {"repr": repr(self.value)[:60], "hex": None}),
-             "noreply": self.noreply, "serde": getattr(self, "serde", False)}
+             "noreply": self.noreply, "serde": getattr(self, "serde", False), "ignore_exc": getattr(self, "ignore_exc", False)}
         for n in ("expire", "flags", "cas", "delta", "delay"):
             v = getattr(self, n)
             d[n] = v if (v is None or isinstance(v, (int, str, float))) else {"repr": repr(v), "hex": v.hex() if isinstance(v, bytes) else None}
@@ -267,6 +275,8 @@ def execute(call, stack, prefix, uni, encoding):
     cls, args = STACKS[stack]
     mod = RecModule(REPLIES.get(call.op, b"STORED\r\n"))
     kw = {"serde": FlagSerde()} if getattr(call, "serde", False) else {}
+    if getattr(call, "ignore_exc", False):
+        kw["ignore_exc"] = True  # swallows cache failures - not the caller's illegal arguments
     obj = cls(*args, socket_module=mod, key_prefix=prefix, allow_unicode_keys=uni, encoding=encoding, **kw)
     try:
         call.invoke(obj)
@@ -377,6 +387,17 @@ def dim_values(chk, tier, stack):
                     judge(chk, "value", Call(op, keys, value=v, noreply=nr), stack, b"ns:", False, encoding, klass)
 
 
+def dim_noreply_default(chk, tier, stack):
+    """noreply left out, or given as None: the command carries the marker the documented default implies."""
+    for op in SINGLE_KEY_OPS + MULTI_KEY_OPS + ["flush_all"]:
+        if op in ("get", "gets", "gat", "gats", "get_many", "gets_many"):
+            continue
+        keys = [] if op == "flush_all" else (["k", "k2"] if op in MULTI_KEY_OPS else ["k"])
+        for nr in ("OMIT", None):
+            for prefix in (b"", b"ns:"):
+                judge(chk, "noreply-default", Call(op, keys, noreply=nr), stack, prefix, False, "ascii", f"{op}:{nr}")
+
+
 def dim_serde(chk, tier, stack):
     """a serializer that returns non-zero flags x explicit flags (None, 0, non-zero)"""
     for v in (b"raw", "text", 17, ("t", 1)):
@@ -468,6 +489,10 @@ def dim_multi(chk, tier, stack):
                 keys = list(many)
                 keys[pos] = "bad key"
                 judge(chk, "multi", Call(op, keys, noreply=True), stack, b"", False, "ascii", f"illegal-at-{pos}-of-{n}")
+                if n <= 64:
+                    c = Call(op, keys, noreply=True)
+                    c.ignore_exc = True
+                    judge(chk, "multi", c, stack, b"", False, "ascii", f"illegal-at-{pos}-of-{n}:ignore_exc")
             judge(chk, "multi", Call(op, many, noreply=True), stack, b"", False, "ascii", f"all-legal-{n}")
 
 
@@ -570,6 +595,7 @@ def _worker(job, chk):
         dim_keys(chk, tier, stack, prefix, uni, as_str)
     elif dim == "value":
         dim_values(chk, tier, stack)
+        dim_noreply_default(chk, tier, stack)
     elif dim == "int":
         dim_ints(chk, tier, stack)
     elif dim == "multi":
@@ -623,6 +649,7 @@ def _undesc(d):
     c = Call(d["op"], [k(x) for x in d["keys"]], value=val(d["value"]), expire=val(d["expire"]), flags=val(d["flags"]),
              cas=val(d["cas"]), delta=val(d["delta"]), delay=val(d["delay"]), noreply=d["noreply"])
     c.serde = d.get("serde", False)
+    c.ignore_exc = d.get("ignore_exc", False)
     return c
 
 
